@@ -949,9 +949,9 @@ func (e *env) stmts(ss []ast.Stmt, rets []Type, ind string, tail string) string 
 // dispatcher emits `dispatch : String → List String → Option String`: parse the arguments of a
 // generated function from protocol tokens (floats as IEEE hex, ints decimal, bools 0/1), call it,
 // print the result tokens.
-func dispatcher() string {
+func dispatcher(group string) string {
 	var sb strings.Builder
-	sb.WriteString("\ndef dispatch (name : String) (args : List String) : Option String :=\n")
+	sb.WriteString("\ndef dispatch" + group + " (name : String) (args : List String) : Option String :=\n")
 	width := func(t Type) int {
 		switch t {
 		case TPoint:
@@ -1120,26 +1120,37 @@ func translate(f *fn) string {
 	return fmt.Sprintf("-- %s\ndef %s %s : %s :=\n%s", fset.Position(f.decl.Pos()), name, strings.Join(params, " "), strings.Join(rts, " × "), body)
 }
 
+type Group struct {
+	Name string   `json:"name"`
+	Deps []string `json:"deps"`
+	Spec
+}
+
 func main() {
-	if len(os.Args) < 5 {
-		fmt.Fprintln(os.Stderr, "usage: gotolean <repo> <spec.json> <F|K> <out.lean>")
+	if len(os.Args) < 6 {
+		fmt.Fprintln(os.Stderr, "usage: gotolean <repo> <spec.json> <group> <F|K> <out.lean>")
 		os.Exit(2)
 	}
-	repo, specPath, out := os.Args[1], os.Args[2], os.Args[4]
-	mode = os.Args[3]
-	var spec Spec
+	repo, specPath, group, out := os.Args[1], os.Args[2], os.Args[3], os.Args[5]
+	mode = os.Args[4]
+	var all struct {
+		Groups []Group `json:"groups"`
+	}
 	b, err := os.ReadFile(specPath)
 	if err != nil {
 		panic(err)
 	}
-	if err := json.Unmarshal(b, &spec); err != nil {
+	if err := json.Unmarshal(b, &all); err != nil {
 		panic(err)
 	}
-	for name, fs := range spec.Records {
-		records[name] = map[string]Type{}
-		for f, t := range fs {
-			records[name][f] = Type(t)
-		}
+	byName := map[string]*Group{}
+	for i := range all.Groups {
+		byName[all.Groups[i].Name] = &all.Groups[i]
+	}
+	g, ok := byName[group]
+	if !ok {
+		fmt.Fprintln(os.Stderr, "gotolean: unknown group", group)
+		os.Exit(2)
 	}
 	files := map[string]*ast.File{}
 	parse := func(name string) *ast.File {
@@ -1155,11 +1166,64 @@ func main() {
 		return f
 	}
 	var sb strings.Builder
-	sb.WriteString("-- GENERATED by tools/gotolean from /repo sources. Do not edit; regenerated on every check.\n")
+	sb.WriteString("-- GENERATED by tools/gotolean from /repo sources (group " + group + "). Do not edit; regenerated on every check.\n")
+	sb.WriteString("import CanvasModel.Prelude\n")
+	for _, d := range g.Deps {
+		sb.WriteString("import CanvasGen." + d + mode + "\n")
+	}
 	if mode == "F" {
-		sb.WriteString("import CanvasModel.Prelude\nnamespace GenF\nopen Canvas\nset_option linter.unusedVariables false\n\n")
+		sb.WriteString("namespace GenF\nopen Canvas\nset_option linter.unusedVariables false\n\n")
 	} else {
-		sb.WriteString("import CanvasModel.Prelude\nimport Mathlib.Algebra.Order.Field.Basic\nimport Mathlib.Algebra.Order.Ring.Abs\nnamespace GenK\nopen Canvas\nvariable {K : Type} [Field K] [LinearOrder K] [IsStrictOrderedRing K] [Env K]\nset_option linter.unusedVariables false\n\n")
+		sb.WriteString("import Mathlib.Algebra.Order.Field.Basic\nimport Mathlib.Algebra.Order.Ring.Abs\nnamespace GenK\nopen Canvas\nvariable {K : Type} [Field K] [LinearOrder K] [IsStrictOrderedRing K] [Env K]\nset_option linter.unusedVariables false\n\n")
+	}
+	// dependencies first (declared, not emitted)
+	seen := map[string]bool{}
+	var visit func(n string)
+	var discard strings.Builder
+	visit = func(n string) {
+		if seen[n] {
+			return
+		}
+		seen[n] = true
+		d, ok := byName[n]
+		if !ok {
+			fmt.Fprintln(os.Stderr, "gotolean: unknown dependency group", n)
+			os.Exit(2)
+		}
+		for _, x := range d.Deps {
+			visit(x)
+		}
+		if n != group {
+			process(d.Spec, parse, &discard, false)
+		}
+	}
+	visit(group)
+	process(g.Spec, parse, &sb, true)
+	for _, f := range order {
+		sb.WriteString(translate(f))
+		sb.WriteString("\n")
+	}
+	if mode == "F" {
+		sb.WriteString(dispatcher(group))
+		sb.WriteString("end GenF\n")
+	} else {
+		sb.WriteString("end GenK\n")
+	}
+	if err := os.WriteFile(out, []byte(sb.String()), 0o644); err != nil {
+		panic(err)
+	}
+}
+
+// process registers (and, when emit is set, prints) the constants, records and functions of a spec.
+func process(spec Spec, parse func(string) *ast.File, sbp *strings.Builder, emit bool) {
+	var sb strings.Builder
+	newRecords := map[string]bool{}
+	for name, fs := range spec.Records {
+		records[name] = map[string]Type{}
+		newRecords[name] = true
+		for f, t := range fs {
+			records[name][f] = Type(t)
+		}
 	}
 	// constants
 	for _, c := range spec.Consts {
@@ -1235,7 +1299,7 @@ func main() {
 	sb.WriteString("\n")
 	// records
 	var rnames []string
-	for n := range records {
+	for n := range newRecords {
 		rnames = append(rnames, n)
 	}
 	sort.Strings(rnames)
@@ -1299,24 +1363,16 @@ func main() {
 				}
 			}
 			funcs[key] = x
-			order = append(order, x)
+			if emit {
+				order = append(order, x)
+			}
 		}
 		if !found {
 			fmt.Fprintf(os.Stderr, "gotolean: UNSUPPORTED: function %s.%s not found in %s\n", w.Recv, w.Name, w.File)
 			os.Exit(3)
 		}
 	}
-	for _, f := range order {
-		sb.WriteString(translate(f))
-		sb.WriteString("\n")
-	}
-	if mode == "F" {
-		sb.WriteString(dispatcher())
-		sb.WriteString("end GenF\n")
-	} else {
-		sb.WriteString("end GenK\n")
-	}
-	if err := os.WriteFile(out, []byte(sb.String()), 0o644); err != nil {
-		panic(err)
+	if emit {
+		sbp.WriteString(sb.String())
 	}
 }
